@@ -149,8 +149,13 @@ Definition out := (option nat * list Z)%type.
 Definition with_xs (s : shell) (l : list xlink) : shell := {| xs := l; tr := tr s; crit := crit s |}.
 Definition quiet (s : shell) : shell * out := (s, (None, zeros (xs s))).
 
+(** clear_pre_registration_state (which also restores the default window) + the stamps
+    process_uplink_packet applies on REG3 *)
+Definition reg3_core (c : link) (now : Z) : link :=
+  {| cid := cid c; connected := true; window := WINDOW_DEFAULT; in_flight := 0; log := [];
+     hwm := i32_min; last_recv := Some now; proof := proof c; cg := cong0; ovf := ovf c |}.
 Definition up_link (x : xlink) (now : Z) : xlink :=
-  {| core := reg3_clear (core x) now; queue := []; bsize := bsize x; registering := false;
+  {| core := reg3_core (core x) now; queue := []; bsize := bsize x; registering := false;
      established := if established x =? 0 then now else established x; grace := grace x;
      qmult := 1%float |}.
 Definition down_link (x : xlink) : xlink :=
